@@ -3,12 +3,19 @@ import z3
 from pyvc import verify, core, interp
 from pyvc.runner import load_contracts
 load_contracts()
-u=[x for x in verify.UNITS if x.unit_name().endswith('MajorityDownscaler.downscale')][0]
-orig=core.Ctx._match_div
-def dbg(self, at, bt):
-    t0=time.time()
-    r=orig(self, at, bt)
-    print("match_div", "HIT" if r else "miss", round(time.time()-t0,2), str(at)[:150].replace("\n"," "), "||", str(bt)[:100].replace("\n"," "))
-    return r
-core.Ctx._match_div=dbg
-r=verify.run_unit(u,'uint8')
+name=sys.argv[1]; pat=sys.argv[2]
+u=[x for x in verify.UNITS if x.unit_name().endswith(name)][0]
+orig=core.discharge; cnt=0
+def d(ob, inputs, timeout_ms=20000, **k):
+    global cnt
+    if pat in ob.name:
+        cnt+=1
+    if pat in ob.name and cnt==int(sys.argv[3]):
+        s=z3.Solver(); 
+        for a in ob.assumptions: s.add(a)
+        s.add(z3.Not(ob.goal))
+        open('/verif/scratch/q.smt2','w').write(s.to_smt2())
+        print("dumped", ob.name, len(ob.assumptions)); raise SystemExit
+    return {"verdict":"proved","time_s":0,"backend":"skip"}
+core.discharge=d
+verify.run_unit(u, u.configs_for('quick')[0])
